@@ -232,6 +232,56 @@ REVERTS = [
     ('revert-F57-selection-footer-num-rows', ['C02', 'C06'], 'fastparquet/api.py',
      """        fmd.num_rows = sum(rg.num_rows for rg in new_rgs)
 """, ""),
+    ('revert-F58-multi-append-commits-per-part', ['C18', 'C07', 'C02', 'C10'], 'fastparquet/writer.py',
+     """            rg_list.append(rg)
+    fmd.row_groups = rg_list
+""", """            rg_list.append(rg)
+        fmd.row_groups = rg_list
+"""),
+    ('revert-F59-integer-range-of-the-logical-type', ['C07', 'C18', 'C19'], 'fastparquet/writer.py',
+     """                    if (int(data.values.min()) < info.min
+                            or int(data.values.max()) > info.max):
+""", """                    if False:
+"""),
+    ('revert-F60-handle-caches-kept-after-append', ['C17'], 'fastparquet/api.py',
+     """        # dtypes, the number of categories - is void)
+        self._base_dtype = self._kvm = self._pdm = self._categories = None
+""", """        # dtypes, the number of categories - is void)
+"""),
+    ('revert-F61-no-truncate-after-append', ['C16', 'C10'], 'fastparquet/writer.py',
+     """            if append:
+                # (new row groups and footer may be shorter than the footer
+                # they replace, e.g. after key-value entries were removed)
+                f.truncate()
+""", ""),
+    ('revert-F62-partition-names-identifiers-only', ['C08', 'C14', 'C17'], 'fastparquet/util.py',
+     """            s = re.compile("([^{0}=]+)=([^{0}]+)".format(sep))
+""", """            s = re.compile("([a-zA-Z_0-9]+)=([^{0}]+)".format(sep))
+"""),
+    ('revert-F63-glued-removal-paths', ['C09'], 'fastparquet/api.py',
+     """                remove_with([join_path(basepath, file) for file in rgs_to_remove])
+""", """                remove_with([f'{basepath}/{file}' for file in rgs_to_remove])
+"""),
+    ('revert-F64-partition-column-names-unchecked', ['C08', 'C18', 'C19'], 'fastparquet/writer.py',
+     """    if with_field:
+        for column in columns:
+            # (name=value directories: the first "=" ends the name)
+""", """    if False:
+        for column in columns:
+            # (name=value directories: the first "=" ends the name)
+"""),
+    ('revert-F65-scalar-for-a-dtype', ['C17'], 'fastparquet/api.py',
+     """                            dtype[col] = np.dtype('float64')
+""", """                            dtype[col] = np.float64()
+"""),
+    ('revert-F66-categories-dict-unchecked', ['C18'], 'fastparquet/util.py',
+     """        if isinstance(arg, (tuple, list, dict)):
+""", """        if isinstance(arg, (tuple, list)):
+"""),
+    ('revert-F67-v2-levels-only-with-nulls', ['C15'], 'fastparquet/core.py',
+     """    if max_def and (data_header2.num_nulls or max_rep):
+""", """    if max_def and data_header2.num_nulls:
+"""),
 ]
 
 # functions whose twins are run per property (module, qualname)
